@@ -315,9 +315,9 @@ func (c *collH) accountsDrifted(name string, b collSnap) bool {
 func (c *collH) sendDonation(name string, to int, coins []sdk.Coin) string {
 	h := c.h
 	b := c.snap(name)
-	hd := collectives.NewApplyCollectiveSendDonationProposalHandler(h.w.app.CollectivesKeeper)
+	_ = collectives.NewApplyCollectiveSendDonationProposalHandler // the handler the router holds for this content
 	content := &colltypes.ProposalCollectiveSendDonation{Name: name, Address: h.acc[to].String(), Amounts: coins}
-	err := withCache(h.ctx, func(x sdk.Context) error { return hd.Apply(x, 1, content, sdk.ZeroDec()) })
+	err := h.w.Enact(h.ctx, 1, content)
 	out := cls(err)
 	line := fmt.Sprintf("coll senddonation name=%s to=%d coins=%s", name, to, h.rawCoinsStr(coins))
 	h.r.Op(line, out)
